@@ -89,7 +89,7 @@ def updater_reach_rule(prog, res):
             res.ok('updater-reach', inst, f.loc(), 'every normal path after the last parameter/data modification passes an updater call', function=f.sig, expr='reach')
 
 
-def sync_table_rule(prog, res):
+def sync_table_rule(prog, res, rule='sync-table'):
     """walk updateHeader on finite models; collect header-setter calls with evaluated arguments"""
     f = prog.fn(UPD[0], nparams=0)
     R = Renderer(f)
@@ -128,7 +128,7 @@ def sync_table_rule(prog, res):
                  lambda e: ([('nbAnalogs', e['AUSED'])] if e['AUSED'] != e['hAnalogs'] else []) if e['nAnalogParams'] else [('nbAnalogs', 0)]))
     rows.append(('sub-frames <- stored data', {'nFrames': [1, 2], 'nSub0': [1, 2, 3], 'hAbf': [0, 1, 2, 3]},
                  lambda e: [('nbAnalogByFrame', e['nSub0'])] if e['nSub0'] != e['hAbf'] else []))
-    rows.append(('sub-frames <- rate ratio (no data)', {'nFrames': [0], 'RATE': [0.0, 50.0, 100.0], 'ARATE': [0.0, 100.0, 200.0], 'hAbf': [0, 1, 2, 4], 'hRate': [0.0, 50.0, 100.0]},
+    rows.append(('sub-frames <- rate ratio (no data)', {'nFrames': [0], 'RATE': [0.0, 12.5, 50.0, 100.0], 'ARATE': [0.0, 100.0, 200.0, 1250.0], 'hAbf': [0, 1, 2, 4], 'hRate': [0.0, 12.5, 50.0, 100.0]},
                  lambda e: ([('nbAnalogByFrame', 1)] if e['hAbf'] != 1 else []) if int(e['RATE']) == 0 else
                  ([('nbAnalogByFrame', int(e['ARATE'] / e['RATE']))] if int(e['ARATE'] / e['RATE']) != e['hAbf'] else [])))
     total = 0
@@ -161,9 +161,9 @@ def sync_table_rule(prog, res):
                     bad = 'with %s the header setter %s is called with %s' % ({k: env[k] for k in keys}, s, v)
         total += n
         if bad:
-            res.viol('sync-table', name, f.loc(), bad, function=f.sig, expr=name)
+            res.viol(rule, name, f.loc(), bad, function=f.sig, expr=name)
         else:
-            res.ok('sync-table', name, f.loc(), 'setter called with the source value on every one of %d model rows where source and header differ' % n, function=f.sig, expr=name)
+            res.ok(rule, name, f.loc(), 'setter called with the source value on every one of %d model rows where source and header differ' % n, function=f.sig, expr=name)
     res.info['sync_table_rows'] = total
     res.minimum('sync-table rows walked', total, 150)
 
